@@ -126,7 +126,8 @@ func (bs *BatchCacheStub) insertCacheCheckKeys(
 		Payload: address,
 	}
 
-	accinfo, err := pb.Marshal(addrMsg.GetAccount())
+	// getAccountInfo answers are JSON (see helpers.GetAccountInfo), unlike checkKeys / checkAddress
+	accinfo, err := json.Marshal(addrMsg.GetAccount())
 	if err != nil {
 		return
 	}
